@@ -124,4 +124,14 @@ impl MoveInfo {
     pub fn pop_halfmove_clock(&mut self) -> u8 {
         self.halfmove_clock_stack.pop().unwrap()
     }
+
+    /// Depths of the en passant, castle rights and halfmove clock stacks.
+    #[cfg(chess_verif)]
+    pub fn verif_stack_depths(&self) -> [usize; 3] {
+        [
+            self.en_passant_target_stack.len(),
+            self.castle_rights_stack.len(),
+            self.halfmove_clock_stack.len(),
+        ]
+    }
 }
